@@ -11,6 +11,8 @@ import z3
 from .core import SV, Unsupported, term, wrap, is_z3, fresh_name, Min, Max, to_real
 
 _CTX = [None]
+# (fresh_name re-exported for ops)
+
 
 
 def cur():
@@ -53,6 +55,15 @@ def forall(ks, body):
         b = body()
     if facts:
         b = z3.Implies(z3.And(*facts), b)
+    return z3.ForAll(ks, b) if ks else b
+
+
+def forall_hyp(ks, body):
+    """quantified *hypothesis*: the element facts are asserted alongside (conjoined), not assumed"""
+    with capture_facts() as facts:
+        b = body()
+    if facts:
+        b = z3.And(*facts, b)
     return z3.ForAll(ks, b) if ks else b
 
 
@@ -476,12 +487,9 @@ def cast_term(src, dst, t):
         slo_shi = int_range(src) if src.kind in "iu" else None
         if slo_shi and slo_shi[0] >= lo and slo_shi[1] <= hi:
             return t
-        if src.kind == "f":
-            # out of range float -> int is undefined in C; demand in-range as an obligation
-            oblige("cast.in_range", z3.And(t >= lo, t <= hi), f"float->{dst} cast must be in range")
-            return t
         m = hi - lo + 1
-        return ((t - lo) % m) + lo   # two's complement wrap
+        # out-of-range float -> int is implementation defined; NumPy on x86-64 wraps (via a wider integer): modelled as wrap
+        return z3.If(z3.And(t >= lo, t <= hi), t, ((t - lo) % m) + lo)   # two's complement wrap
     if dst.kind == "f":
         if src.kind == "b":
             return z3.If(t, z3.RealVal(1), z3.RealVal(0))
@@ -985,7 +993,7 @@ def where2d(mask):
 
 
 # ----------------------------------------------------------------------------- elementwise
-def ewise(fn, out_dtype, *operands):
+def ewise(fn, out_dtype, *operands, with_idx=False):
     """generic broadcasting map; operands are SArr; fn(terms...) -> term"""
     shape = ()
     for o in operands:
@@ -993,8 +1001,24 @@ def ewise(fn, out_dtype, *operands):
     snaps = [(o.shape, o.snapshot()) for o in operands]
 
     def elem(idx):
-        return fn(*[s(_bcast_idx(list(idx), shape, shp)) for shp, s in snaps])
+        args = [s(_bcast_idx(list(idx), shape, shp)) for shp, s in snaps]
+        return fn(idx, *args) if with_idx else fn(*args)
     return SArr(out_dtype, shape, elem)
+
+
+# A-FPSTD mode: every float32 multiply / divide / add / subtract result carries a relative rounding error
+# r * (1 + d), |d| <= 2^-24 (standard model of IEEE-754 binary32, round to nearest, no over/underflow)
+FP_ERR = [False]
+U32 = z3.RealVal(1) / (2 ** 24)
+
+
+def fp_round(dtype, idx, r, exact=False):
+    if not FP_ERR[0] or exact or np.dtype(dtype) != np.dtype("float32"):
+        return r
+    d = z3.Function(fresh_name("fl32err"), *([z3.IntSort()] * len(idx)), z3.RealSort()) if idx else z3.Const(fresh_name("fl32err"), z3.RealSort())
+    dt = d(*idx) if idx else d
+    note_fact(dt >= -U32, dt <= U32)
+    return r * (1 + dt)
 
 
 # ----------------------------------------------------------------------------- constructors / shape ops
@@ -1232,4 +1256,10 @@ def reduce_axis(a, axis, name, dtype, axioms=None):
                 return s(tuple(full))
             note_fact(*axioms(along, n, r))
         return r
-    return SArr(dtype, rest_shape, elem)
+    out = SArr(dtype, rest_shape, elem)
+    c = cur()
+    if c is not None:
+        if not hasattr(c, "reduce_log"):
+            c.reduce_log = []
+        c.reduce_log.append({"name": name, "input": s, "in_shape": a.shape, "in_dtype": a.dtype, "axis": axis, "out": (lambda *idx: f(*idx)) if rest_shape else (lambda: f), "result": out})
+    return out
